@@ -702,6 +702,101 @@ def _extents_established(ctx, spec, rule):
               'declared extents %s are exactly what the class resizes its arrays to' % {k: v for k, v in spec.extents.items()} if not probs else '; '.join(probs))
 
 
+
+# D11: Bunch-Kaufman factorization on packed lower-triangular storage (contracts + packed pointer model)
+def packed_storage_contracts(ctx, rule='packed-storage-index-contracts'):
+    from . import contracts
+    BK = contracts.Spec('Spectra::BKLDLT', ['0 <= m_n'], {'m_perm': ['m_n']}, {
+        'pivoting_1x1': {'pre': ['0 <= k', 'k <= r', 'r <= m_n - 1']},
+        'pivoting_2x2': {'pre': ['0 <= k', 'k <= p', 'p <= m_n - 1', 'k + 1 <= r', 'r <= m_n - 1']},
+        'interchange_rows': {'pre': ['0 <= c1', 'c2 <= r1', 'r1 <= r2', 'r2 <= m_n - 1']},
+        'find_lambda': {'pre': ['0 <= k', 'k <= m_n - 2'], 'post': ['k + 1 <= r', 'r <= m_n - 1']},
+        'find_sigma': {'pre': ['0 <= k', 'k + 1 <= r', 'r <= m_n - 1', 'k <= p', 'p <= m_n - 1'], 'post': ['k <= p', 'p <= m_n - 1']},
+        'permutate_mat': {'pre': ['0 <= k', 'k <= m_n - 2']},
+        'gaussian_elimination_1x1': {'pre': ['0 <= k', 'k <= m_n - 1']},
+        'gaussian_elimination_2x2': {'pre': ['0 <= k', 'k <= m_n - 2']},
+        'compress_permutation': {},
+        'compute': {},
+    })
+    PK = contracts.Packed('Spectra::BKLDLT', 'm_n', ptr_cols={
+        'find_lambda': {'head': 'k', 'end': 'k', 'ptr': 'k'},
+        'pivoting_1x1': {'src': 'k'},
+        'gaussian_elimination_1x1': {'lptr': 'k'},
+        'gaussian_elimination_2x2': {'l1ptr': 'k', 'l2ptr': 'k + 1'},
+    })
+    n = contracts.verify_packed(ctx, BK, PK, _check_sites, rule)
+    if n < 100:
+        raise AnalysisBroken('BKLDLT: only %d packed-storage sites analysed (106 confirmed)' % n)
+    # the layout the pointer model assumes is the one the class builds, and the accessors are what the model says they are
+    seen = set()
+    for fn in ctx.F.concrete():
+        if fn.cls != 'Spectra::BKLDLT' or not fn.cfg or fn.record in seen:
+            continue
+        ms = {}
+        for g in ctx.F.methods(fn.record):
+            ms.setdefault(g.name, []).append(g)
+        seen.add(fn.record)
+        probs = []
+
+        def ret(name, nparams, const=False):
+            for g in ms.get(name, []):
+                if len(g.params) == nparams and g.cfg:
+                    r = [x for x in g.walk() if x['k'] == 'ReturnStmt']
+                    if len(r) == 1:
+                        return sym(g, r[0]['value'], inline=False), [g.locals[v]['name'] for v in g.params]
+            return None, None
+        t, pn = ret('coeff', 2)
+        if t is None or t != ('[]', ('[]', ('F', 'm_colptr'), ('P', pn[1])), ('-', ('P', pn[0]), ('P', pn[1]))):
+            probs.append('coeff(i, j) is not m_colptr[j][i - j]: %s' % (show(t) if t else None))
+        t, pn = ret('diag_coeff', 1)
+        if t is None or t != ('[]', ('[]', ('F', 'm_colptr'), ('P', pn[0])), ('lit', '0')):
+            probs.append('diag_coeff(i) is not m_colptr[i][0]: %s' % (show(t) if t else None))
+        t, pn = ret('col_pointer', 1)
+        if t is None or t != ('[]', ('F', 'm_colptr'), ('P', pn[0])):
+            probs.append('col_pointer(k) is not m_colptr[k]: %s' % (show(t) if t else None))
+        cp = [g for g in ms.get('compute_pointer', []) if g.cfg]
+        if not cp:
+            probs.append('compute_pointer not analysed')
+        else:
+            g = cp[0]
+            loops = [x for x in g.walk() if x['k'] == 'ForStmt']
+            ok = len(loops) == 1
+            if ok:
+                lp = loops[0]
+                init = g.node(lp['init'])
+                iv = g.locals[init['decls'][0]['var']]['name']
+                I = ('L', iv)
+                body = [sym(g, x, inline=False) for x in g.kids(g.nodes[lp['body']])]
+                ok = (sym(g, init['decls'][0]['init'], inline=False) == ('lit', '0') and sym(g, lp['cond'], inline=False) == ('<', I, ('F', 'm_n')) and
+                      sym(g, lp['inc'], inline=False) == ('u++', I) and len(body) == 2 and
+                      body[0][0] == 'push_back' and body[0][1] == ('F', 'm_colptr') and body[0][2][0] == 'L' and
+                      body[1] == ('+=', body[0][2], ('-', ('F', 'm_n'), I)))
+                heads = [sym(g, d['init'], inline=False) for x in g.walk() if x['k'] == 'DeclStmt' for d in x['decls'] if 'init' in d and g.locals[d['var']]['name'] == (body[0][2][1] if ok else '')]
+                ok = ok and heads == [('data', ('F', 'm_data'))]
+                clears = [x for x in g.walk() if x['k'] == 'CXXMemberCallExpr' and x.get('callee') == 'clear' and g.field_name(g.strip(g.call_object(x))) == 'm_colptr']
+                ok = ok and len(clears) == 1
+            if not ok:
+                probs.append('compute_pointer does not lay the columns out contiguously (column i: n - i entries, starting at the data pointer)')
+        comp = [g for g in ms.get('compute', []) if g.cfg]
+        rs = []
+        for g in comp:
+            for x in g.walk():
+                if x['k'] == 'CXXMemberCallExpr' and x.get('callee') == 'resize' and g.field_name(g.strip(g.call_object(x))) == 'm_data':
+                    rs.append(sym(g, g.call_args(x)[0], inline=False))
+        want = ('/', ('*', ('+', ('F', 'm_n'), ('lit', '1')), ('F', 'm_n')), ('lit', '2'))
+        if not rs or any(r_ != want and r_ != ('/', ('*', ('F', 'm_n'), ('+', ('F', 'm_n'), ('lit', '1'))), ('lit', '2')) for r_ in rs):
+            probs.append('the packed storage is not sized n(n+1)/2: %s' % [show(r_) for r_ in rs])
+        # compute_pointer() precedes every use of the column pointers in compute()
+        for g in comp:
+            cps = paths.positions_of(g, lambda n_: n_['k'] == 'CXXMemberCallExpr' and n_.get('callee') == 'compute_pointer')
+            uses = paths.positions_of(g, lambda n_: n_['k'] == 'CXXMemberCallExpr' and n_.get('callee') in ('copy_data', 'permutate_mat', 'diag_coeff'))
+            if not cps or not all(paths.dominated_by(g, u, lambda n_: n_['k'] == 'CXXMemberCallExpr' and n_.get('callee') == 'compute_pointer') for u in uses):
+                probs.append('compute(): a use of the column pointers is not preceded by compute_pointer()')
+        ctx.check(not probs, rule, 'BKLDLT/layout', fn.record,
+                  'coeff(i,j) = colptr[j][i-j], diag_coeff(i) = colptr[i][0], col_pointer(k) = colptr[k]; columns contiguous with n - i entries in n(n+1)/2 storage; pointers rebuilt before use'
+                  if not probs else '; '.join(probs))
+
+
 def _show_lin(fn, lin):
     v, c = lin
     if v == 'Z':
@@ -807,22 +902,53 @@ def _monotone(fn, loop):
                 elif x['k'] in ('BinaryOperator',) and x.get('op') == '=' and var_node_pred(fn.nodes[x['c'][0]]):
                     others.append(x)
         return ups, downs, others
+    def leaves(n, sgn, out):
+        """n as a signed sum of leaves (variables / fields of any type, pointers included) and literals; False if not of that form"""
+        n = fn.strip(n)
+        if n is None:
+            return False
+        if n['k'] in ('DeclRefExpr', 'MemberExpr') and 'cval' not in n:
+            out.append((sgn, n))
+            return True
+        if n['k'] == 'IntegerLiteral' or 'cval' in n:
+            return True
+        if n['k'] == 'BinaryOperator' and n.get('op') in ('+', '-'):
+            return leaves(fn.nodes[n['c'][0]], sgn, out) and leaves(fn.nodes[n['c'][1]], sgn if n['op'] == '+' else -sgn, out)
+        return False
     for c in conj:
         if c['k'] != 'BinaryOperator' or c.get('op') not in ('<', '<=', '>', '>=', '!='):
             continue
         l, r = fn.strip(fn.nodes[c['c'][0]]), fn.strip(fn.nodes[c['c'][1]])
-        if l['k'] not in ('DeclRefExpr', 'MemberExpr'):
+        lv = []
+        if not (leaves(l, 1, lv) and leaves(r, -1, lv)):
+            if l['k'] not in ('DeclRefExpr', 'MemberExpr'):
+                continue
+            lv = [(1, l)]
+        # D = lhs - rhs as a signed sum of leaves; the loop runs while D < 0 (<, <=) or D > 0 (>, >=): one leaf must move D
+        # towards 0 on every back-edge path and no other leaf of the comparison may be written in the loop
+        found = None
+        for (sg, leaf) in lv:
+            if c['op'] == '!=' and leaf is not l:
+                continue
+            key = sym(fn, leaf, inline=False)
+            pred = lambda n, key=key: sym(fn, n, inline=False) == key
+            ups, downs, others = writes(pred, region)
+            d_up = (c['op'] in ('<', '<=', '!=')) == (sg > 0)      # does the leaf have to increase?
+            good = ups if d_up else downs
+            bad = (downs if d_up else ups) + others
+            if good and not bad:
+                found = (leaf, good, [x for (_, x) in lv if x is not leaf])
+                break
+        if found is None:
             continue
-        key = sym(fn, l, inline=False)
-        pred = lambda n, key=key: sym(fn, n, inline=False) == key
-        ups, downs, others = writes(pred, region)
-        want_up = c['op'] in ('<', '<=')
-        good = ups if want_up else downs
-        bad = (downs if want_up else ups) + others
-        if not good or bad:
-            continue
-        # bound not written in the loop
-        bound_leaves = [m for m in fn.mentions(r) if m[0] in ('local', 'param', 'field')]
+        l_leaf, good, rest = found
+        r = fn.strip(fn.nodes[c['c'][1]])
+        bound_leaves = []
+        for x in rest:
+            bound_leaves += [m for m in fn.mentions(x) if m[0] in ('local', 'param', 'field')]
+        if c['op'] == '!=':
+            bound_leaves = [m for m in fn.mentions(r) if m[0] in ('local', 'param', 'field')]
+        l = l_leaf
         bw = False
         for m in bound_leaves:
             if m[0] == 'field':
@@ -967,6 +1093,7 @@ def application_bound(ctx, rule='operator-application-bound'):
 def run(ctx):
     _run(ctx)
     dense_kernel_contracts(ctx)
+    packed_storage_contracts(ctx)
 
 
 def _run(ctx):
